@@ -36,6 +36,9 @@ def ppos(nval, cst=0.3):
         errmess = f"Expected cst  in [0, 0.5], got {cst}."
         raise ValueError(errmess)
 
+    # (nval+1 overflows for a numpy integer at the top of its type)
+    nval = int(nval)
+
     return (np.arange(1, nval+1)-cst)/(nval+1-2*cst)
 
 
